@@ -27,6 +27,10 @@ var c14Plan = []planEntry{
 	{spaces.XHead, 6, 7},
 	{spaces.B.Without("\r"), 5, 6},
 	{spaces.XPhrase, 4, 5},
+	{spaces.XRefTail, 5, 6},
+	{spaces.XMl, 5, 6},
+	{spaces.XMlRef, 5, 6},
+	{spaces.XRefHead, 5, 6},
 	{spaces.XInfo, 4, 5},
 }
 
